@@ -1,7 +1,9 @@
 (* C13 — added types are exact and deduplicated.  Statements only.
-   Throughout, [order] is the order in which ModuleTypes::new happened to iterate the HashMap of parsed types;
-   every theorem holds for every list [order] (the hash-order dependence of the *returned id* when the input has
-   structurally equal types is defect D11 of C04 — see C13_ex_hash_order below for what exactly varies). *)
+   Throughout, [order] is the order in which ModuleTypes::new inserts the parsed types into the dedup map; every
+   theorem holds for every list [order].  Since the repair of D11 (property C04) the code inserts in ascending id
+   order ([asc_ids], [parse_types_asc]: C13_ascending_order below); before the repair the order was the iteration order
+   of a HashMap and the *returned id* for a type the input has twice depended on the hash seed — see
+   C13_ex_hash_order for what exactly varied. *)
 From Coq Require Import List NArith Bool.
 Import ListNotations.
 From Orca Require Import Util Flat Types CheckTypes TypesProofs.
@@ -87,6 +89,14 @@ Theorem C13_existing_type_not_added_again :
 Proof. exact add_existing_type. Qed.
 Print Assumptions C13_existing_type_not_added_again.
 
+(* the parse of a type section as the code performs it is the model under the ascending order, which visits every id *)
+Theorem C13_ascending_order :
+  forall base,
+    parse_types_asc base = parse_types base (asc_ids (length (flat base)))
+    /\ forallb (fun id => memN id (asc_ids (length (flat base)))) (upto (length (flat base))) = true.
+Proof. intros base. split; [apply parse_types_asc_eq|apply asc_ids_cover]. Qed.
+Print Assumptions C13_ascending_order.
+
 Theorem C13_last_visited_wins :
   forall types order id t,
     nth_error types (N.to_nat id) = Some t -> lookup_map t (build_map types (order ++ [id])) = Some id.
@@ -122,10 +132,13 @@ Example C13_ex_add :
   /\ snd (add_type S2 st) = st.
 Proof. split; [apply C13_dedup_map_consistent|]. vm_compute. repeat split; reflexivity. Qed.
 
-(* what the hash order changes, and what it does not: the base has [F [0] []] at ids 0 and 2; the request for it is
-   answered with the last visited of the two; soundness / idempotence / preservation hold either way *)
+(* what the insertion order changes, and what it does not: the base has [F [0] []] at ids 0 and 2; the request for it is
+   answered with the last inserted of the two; soundness / idempotence / preservation hold either way.  The code
+   (ascending order) answers 2, the highest id; the descending order is what a HashMap iteration could produce before
+   the repair of D11 *)
 Example C13_ex_hash_order :
-  fst (api_run [(0, F [0] []); (1, F [0] [])] (parse_types ex_base [0; 1; 2; 3])) = [2; 2]
+  fst (api_run [(0, F [0] []); (1, F [0] [])] (parse_types_asc ex_base)) = [2; 2]
+  /\ fst (api_run [(0, F [0] []); (1, F [0] [])] (parse_types ex_base [0; 1; 2; 3])) = [2; 2]
   /\ fst (api_run [(0, F [0] []); (1, F [0] [])] (parse_types ex_base [3; 2; 1; 0])) = [0; 0]
   /\ emit_types (snd (api_run [(0, F [0] []); (1, F [0] [])] (parse_types ex_base [0; 1; 2; 3]))) = Some ex_base
   /\ emit_types (snd (api_run [(0, F [0] []); (1, F [0] [])] (parse_types ex_base [3; 2; 1; 0]))) = Some ex_base.
